@@ -12,6 +12,11 @@ use crate::Args;
 mod tc;
 use tc::{parse_snap, result_of, run_tab_with, GSnap};
 
+#[path = "c20_sys.rs"]
+mod sys;
+#[path = "c15_sys.rs"]
+mod wiretap;
+
 const RULE: &str = "a case is one op history on a fresh real session table (1-4 sessions added, local ids taken from get_next_sess_id, allocators positioned at 1/2/65534/65535/random/onto live ids; then a state-aware random mix of initiate, exchange drop, received messages that open responder exchanges near the allocator position, accept, new sends, retransmissions with identical arguments, matching/mismatching acks, session add/remove, virtual time); non-trivial = the history contains an allocator skip over a live id or a retransmission (rt 1); distinct = by op list";
 
 fn live_slots(g: &GSnap) -> Vec<(u32, usize, u32, String, bool)> {
@@ -182,16 +187,69 @@ fn gen_case(r: &mut Rng, out: &mut Out, len: usize) {
     }
 }
 
+
+const SYS_RULE: &str = "sys cases (system-level wire tap): two real Matter nodes on the simulated network under virtual time (0-20 ms latency); a case is 3-7 sequential ops - real PASE / CASE handshakes (a second CASE offers resumption), request/response rounds on the new secure session (the controller's application sends reliable requests, the device's application answers with reliable responses on the same exchange) and reports (the device opens the exchange, the controller answers each report with a reliable status response) - each under a scripted per-datagram schedule of deliver / drop / duplicate / delay verdicts that forces retransmissions of handshake messages, requests, responses, reports and of messages that carry piggy-backed acknowledgements (including: the responder's first reply lost and the initiator's retransmission delivered); the last op hands the COMPLETE wire log to the driver; non-trivial = at least one datagram was dropped, duplicated or delayed";
+
+fn gen_sched(r: &mut Rng) -> String {
+    let n = r.below(9);
+    let v: Vec<String> = (0..n)
+        .map(|_| match r.below(20) {
+            0..=10 => "d".to_string(),
+            11..=15 => "x".to_string(),
+            16..=17 => "u".to_string(),
+            _ => format!("l{}", r.range(20, 900)),
+        })
+        .collect();
+    v.join(".")
+}
+
+fn gen_sys(id: u64, r: &mut Rng) -> (String, Vec<String>) {
+    let kind = format!("sys lat={}", *r.pick(&[0u64, 2, 5, 5, 20]));
+    let mut ops: Vec<String> = Vec::new();
+    let first = if id % 2 == 0 { "pase" } else { "case" };
+    ops.push(format!("hs {} sched={}", first, gen_sched(r)));
+    // the responder's first reply is lost, the initiator's retransmission gets through
+    let pat = *r.pick(&["d.x", "d.x.d", "d.x.d.x", "x.d.x", "d.d.x.x"]);
+    for _ in 0..r.range(1, 3) {
+        let sched = if r.chance(1, 2) { pat.to_string() } else { gen_sched(r) };
+        if r.chance(2, 3) {
+            ops.push(format!("rr n={} sched={}", r.range(1, 4), sched));
+        } else {
+            ops.push(format!("rep n={} sched={}", r.range(1, 3), sched));
+        }
+    }
+    if r.chance(1, 2) {
+        ops.push(format!("hs case sched={}", gen_sched(r)));
+        ops.push(format!("rr n={} sched={}", r.range(1, 3), if r.chance(1, 2) { pat.to_string() } else { gen_sched(r) }));
+        if r.chance(1, 2) {
+            ops.push(format!("rep n={} sched={}", r.range(1, 2), gen_sched(r)));
+        }
+    }
+    ops.push("tap".into());
+    (kind, ops)
+}
+
 pub fn gen(a: &Args) -> String {
     let mut r = Rng::new(a.seed);
     let mut out = Out::default();
-    out.buf.push_str(&format!("#rule {}\n", RULE));
+    out.buf.push_str(&format!("#rule {} || {}\n", RULE, SYS_RULE));
     let n_cases = if a.thorough { 60000 } else { 5000 };
     for id in 0..n_cases {
         let mut cr = r.fork();
         let len = if a.thorough { cr.range(5, 150) } else { cr.range(5, 60) } as usize;
         out.case(id, "tab");
         gen_case(&mut cr, &mut out, len);
+    }
+    // system level: the complete wire of real handshakes and traffic under forced retransmissions
+    let n_sys = if a.thorough { 3000 } else { 250 };
+    for id in 0..n_sys {
+        let mut cr = r.fork();
+        let (kind, ops) = gen_sys(id, &mut cr);
+        out.case(n_cases + id, &kind);
+        wiretap::run_sys(&mut out, &kind, &ops);
+        if ops.iter().any(|o| o.contains('x') || o.contains(".u") || o.contains("=u") || o.contains(".l") || o.contains("=l")) {
+            out.buf.push_str("#nt\n");
+        }
     }
     out.finish()
 }
@@ -200,7 +258,12 @@ pub fn replay(a: &Args) -> String {
     let text = std::fs::read_to_string(a.input.as_ref().expect("--in")).expect("read input");
     let mut out = Out::default();
     for c in parse_cases(&text) {
-        tc::run_case(&mut out, &c);
+        if c.kind.starts_with("sys") {
+            out.case(c.id, &c.kind);
+            wiretap::run_sys(&mut out, &c.kind, &c.ops);
+        } else {
+            tc::run_case(&mut out, &c);
+        }
     }
     out.finish()
 }
